@@ -373,11 +373,16 @@ def build_functions(W):
         lambda p1, p2, m, s: P.FastAggregateVerify([p1, p2], m, s), cost=15)
     # ---- secp256k1 ------------------------------------------------------------------------------------------------
     import py_ecc.secp256k1.secp256k1 as sp
-    add("secp.privtopub", "secp", ["priv32"], sp.privtopub)
-    add("secp.multiply_G", "secp", ["scalar"], lambda n: sp.multiply(sp.G, n))
+    add("secp.privtopub", "secp", ["priv32"], sp.privtopub, result_tag="secp_pt")
+    add("secp.multiply_G", "secp", ["scalar"], lambda n: sp.multiply(sp.G, n), result_tag="secp_pt")
     add("secp.add_G_multiples", "secp", ["smallint", "smallint"], lambda a, b: sp.add(sp.multiply(sp.G, a), sp.multiply(sp.G, b)))
     add("secp.ecdsa_raw_sign", "secp", ["hash32", "priv32"], sp.ecdsa_raw_sign)
     add("secp.sign_recover", "secp", ["hash32", "priv32"], lambda h, k: sp.ecdsa_raw_recover(h, sp.ecdsa_raw_sign(h, k)))
+    add("secp.add", "secp", ["secp_pt", "secp_pt"], sp.add, result_tag="secp_pt")
+    add("secp.multiply", "secp", ["secp_pt", "int"], sp.multiply, result_tag="secp_pt")
+    add("secp.recover_bad", "secp", ["hash32", "smallint", "scalar", "scalar"],
+        lambda h, v, r, s_: sp.ecdsa_raw_recover(h, (27 + v % 3, r, s_)))
+    add("secp.deterministic_generate_k", "secp", ["hash32", "priv32"], sp.deterministic_generate_k)
     return fns
 
 
@@ -396,6 +401,8 @@ LITERALS = {
     "priv32": [b"\x00" * 31 + b"\x01", b"\x12" * 32, bytes(range(1, 33))],
     "hash32": [b"\x00" * 32, b"\xff" * 32, bytes(range(32))],
     "pk": [], "sig": [],
+    "secp_pt": [(0, 0), (0x79BE667EF9DCBBAC55A06295CE870B07029BFCDB2DCE28D959F2815B16F81798,
+                         0x483ADA7726A3C4655DA4FBFC0E1108A8FD17B448A68554199C47D08FFB10D4B8)],
 }
 
 
@@ -455,7 +462,12 @@ class Runner:
                       f"{self.memo[key][1]} for equal arguments")
         self.memo.setdefault(key, (rd, len(self.steps) - 1))
         if res[0] == "ok":
-            self.live_pool.append((len(self.steps) - 1, res[1], W.snap(res[1])))
+            sn = W.snap(res[1])
+            if "sgn0_cache_wrong" in repr(sn):
+                self.fail(f"stale_sgn0_cache:{step['f']}",
+                          f"{step['f']} returned an element whose cached sgn0 does not belong to its value "
+                          f"(state carried over from an operand): {str(rd)[:160]}")
+            self.live_pool.append((len(self.steps) - 1, res[1], sn))
         if not self.fresh:
             self.check_world(step)
         return res
